@@ -16,6 +16,7 @@ from props import statelib
 from props import topiclib as T
 from props import c01burst
 from props import c01ims
+from props import c01att
 from props.statelib import kvs
 
 
@@ -513,6 +514,11 @@ def run(ctx):
         c01ims.run_ims(ctx, monitor)
         if rp is not None:
             ctx.coverage.setdefault("trusted_base", []).append("harness/overlay/server/zz_verif_c01i_test.go: description-options driver")
+            ctx.finish()
+    if ok_r and ok_m and ctx.proof_ok() and (rp is None or rp.get("part") == "att"):
+        c01att.run_att(ctx, monitor)
+        if rp is not None:
+            ctx.coverage.setdefault("trusted_base", []).append("harness/overlay/server/zz_verif_c01a_test.go: attachments driver")
             ctx.finish()
     if ok_r and ok_m and ctx.proof_ok() and (rp is None or rp.get("part") == "chan"):
         c01ims.run_channel(ctx)
